@@ -23,6 +23,8 @@ def check(rep):
     ER.rule_call_forwards(ctx, rid="C11.CALL-FORWARDS", aspects=("result",))
     ER.rule_fresh_per_parse(ctx, rid="C11.FRESH-LEXER-PER-PARSE", kinds=("Lexer",))
     ER.rule_value_keyed_caches(ctx, rid="C11.NO-VALUE-KEYED-CACHE", modules={"experiment_evaluator.py", "utils/wraper_functions.py"})
+    from . import piperules as PR
+    PR.rule_recompile_like_fresh(ctx, "C11.RECOMPILED-LIKE-FRESH")
     return ("Commit-point ordering by path enumeration of recompile(): on every path all may-raise statements precede all state "
             "writes (so a raising recompile has written nothing and raises again next time); the only skip is an exact fingerprint "
             "match of the whole argument text, and the stored fingerprint is only assigned that value after the swap; all writes "
